@@ -31,7 +31,13 @@ ASSUMPTIONS = ["inputs are ASCII",
                "and its corollary Props.C01.parse_layout_locations_total (for every wfLoose record and layout the parser returns the "
                "record and parseLocation panics on none of its feature locations, so the driver's panic-parity branch never decides an "
                "in-domain case); Props.C02.parseLocation_panics_unclosed names the texts that do panic (a first '(' with no ')' after it)",
-               "extra keyword blocks have pairwise distinct keywords (Meta.Other is a map; GenBank has one block per keyword); SOURCE is always followed by its mandatory ORGANISM line",
+               "extra keyword blocks have pairwise distinct keywords (Meta.Other is a map; GenBank has one block per keyword)",
+               "a SOURCE block written WITHOUT its ORGANISM line (empty organism, the writer leaves the empty line out as it may leave out "
+               "every other block without text) is read as INSIDE the quantifier: the layout family omits empty DEFINITION / ACCESSION / "
+               "VERSION / KEYWORDS blocks, which NCBI calls mandatory just as it does ORGANISM, and nothing in the property text singles "
+               "ORGANISM out; judged, known finding C01-source-without-organism (theorems carry the hypothesis orgOmitted = false)",
+               "numerals of a location text have at most 18 digits (Spec isLocTextB): strconv.Atoi clamps a numeral >= 2^63 to MaxInt64 and "
+               "poly drops the range error, C02's model keeps the number; such texts are generated as drift probes only",
                "C01 compares the location text only; the parsed Location is property C02's (its model of parseLocation is the one the "
                "driver and parse_layout_locations_total use: that model corresponds to Go's parseLocation is C02's correspondence, not C01's)",
                "ioutil.ReadFile / gzip return the bytes written (Read* wrappers are checked by correspondence only)"]
@@ -145,7 +151,9 @@ def location(r, n, depth=0):
                          "%d.%d" % (a, b), "%d^%d" % (a, a + 1), "J00194.1:%d..%d" % (a, b),
                          "join(J00194.1:%d..%d,%d..%d)" % (a, b, a, b), "order(complement(%d..%d),%d)" % (a, b, a),
                          "complement(order(%d..%d,%d..%d))" % (a, b, a, b), "oneof(%d,%d)" % (a, b), str(r.randint(0, 9)),
-                         "join(%d.%d,<%d..>%d)" % (a, b, a, b), "-%d..%d" % (a, b), "join(%d..%d,/x,%d)" % (a, b, a), "a/b", "%d..%d;x" % (a, b)])
+                         "join(%d.%d,<%d..>%d)" % (a, b, a, b), "-%d..%d" % (a, b),
+                         "%d..999999999999999999" % a,                # 18 digits: the largest numeral of the domain (isLocTextB)
+ "join(%d..%d,/x,%d)" % (a, b, a), "a/b", "%d..%d;x" % (a, b)])
     if depth >= 2 or k < 0.5:
         return span()
     if k < 0.7:
@@ -243,7 +251,9 @@ def record(r, tier, big=False, trap=0.001, small=False, repeat=False):
         cuts = [0, 0, 0, 0, 0, 0, r.randint(1, nex)]          # the last ones after the feature table (CONTIG)
     else:
         cuts = [r.choice([0, 0, 1, 2]) for _ in range(7)]
-    omit = "".join(r.choice("01") for _ in range(5))
+    # five standard blocks left out when empty; sixth flag: the empty ORGANISM line alone left out under a written SOURCE
+    # (known finding C01-source-without-organism)
+    omit = "".join(r.choice("01") for _ in range(5)) + ("1" if r.random() < 0.3 else "0")
     f += [nats(cuts), omit]
     empties = r.random() < 0.25
     for kw, mx in (("DEFINITION", 40), ("ACCESSION", 2), ("VERSION", 2), ("KEYWORDS", 8), ("SOURCE", 12), ("ORGANISM", 25)):
@@ -321,6 +331,23 @@ def mk(mode, final_newline, header, recs):
 
 def cases(seed, tier):
     r = rng(seed, "C01")
+    # SOURCE written without its ORGANISM line (organism empty), followed by each kind of block: an extra block before the
+    # references, a REFERENCE, an extra block after the references, FEATURES (known finding C01-source-without-organism)
+    for k in range(16 if tier == "quick" else 200):
+        recs = []
+        for _ in range(1 if k % 4 else 2):
+            rec = record(r, tier, small=True, trap=0.0)
+            rec[23], rec[24] = "", ""                              # organism
+            if k % 3 == 0: rec[21], rec[22] = "", ""               # source empty too: the bare keyword SOURCE is written
+            rec[12] = rec[12][:4] + "01"                           # SOURCE not left out, ORGANISM left out
+            recs.append(rec)
+        yield mk("parse" if len(recs) == 1 else "multi", k % 2 == 0, False, recs)
+    # numerals >= 2^63 in a location text: outside the domain (strconv.Atoi clamps to MaxInt64, C02's model keeps the number), drift
+    # probes; only here and through Read (C03 builds its `img01` cases from the single-record `parse` cases of this generator and
+    # compares the parsed structure)
+    for loc in ("1..9223372036854775808", "99999999999999999999", "join(1..2,9223372036854775807..9223372036854775808)"):
+        rec = record(r, tier, small=True, trap=0.0)
+        yield mk("read", True, False, [with_features(rec, [["gene", loc, "", "0"]])])
     # every molecule type x topology x division, short sequences of every small length
     k = 0
     for mol in range(4):
@@ -451,7 +478,11 @@ def raw_cases(r, n):
         yield ["c01", "raw", r.choice(["parse", "parse", "multi", "flat"]), text]
 
 
-PARTIAL = ["features_recovered / parse_layout: proved for features whose qualifier keys are pairwise distinct; a feature with a repeated key "
+PARTIAL = ["parse_layout / parseMulti_layout / parseFlat_layout: proved for every layout except a SOURCE block written without its ORGANISM "
+           "line (hypothesis orgOmitted r l = false; RecOK / RecOKL carry it): there getSourceOrganism returns the text of the NEXT keyword "
+           "block as the organism — known finding C01-source-without-organism (witness theorem source_without_organism_witness, "
+           "prediction Spec toSequenceOrg); everything else of the statement is at full strength",
+           "features_recovered / parse_layout: proved for features whose qualifier keys are pairwise distinct; a feature with a repeated key "
            "(several /db_xref) keeps only the last value because poly.Feature.Attributes is a map[string]string — known finding "
            "C01-repeated-qualifier-key (witness theorem repeated_qualifier_key_witness); everything else of the statement is at full strength"]
 TECHNIQUE = ("Lean 4 proof over an executable model of genbank.Parse / ParseMulti / ParseFlat against an independent flat-file "
@@ -459,7 +490,7 @@ TECHNIQUE = ("Lean 4 proof over an executable model of genbank.Parse / ParseMult
              "on generated (record, layout) pairs")
 LEVEL_TEXT = ("(Layout family widened after review: empty standard blocks written or left out, extra keyword blocks in 7 slots, "
               "qualifier values quoted / unquoted / absent, keys with capitals, every INSDC-shaped location text; repeated qualifier "
-              "keys are judged and are the one known finding, with the positive theorems features_recovered_last_wins / "
+              "keys are judged and are a known finding, with the positive theorems features_recovered_last_wins / "
               "parse_layout_last_wins saying exactly what is kept.) "
               "Every clause is a kernel-checked theorem about the model for ALL abstract records in the domain predicate wf and ALL "
               "layout choices (no bound on sequence length below 10^8, number of features, qualifiers, references, records, line "
@@ -469,8 +500,10 @@ LEVEL_TEXT = ("(Layout family widened after review: empty standard blocks writte
               "features_recovered (multi-line locations with and without qualifiers, values with '/', '=', wrapped before '/', "
               "/translation cut mid-token), parse_layout (composition on the text, with and without final newline), "
               "parseMulti_layout + parseMulti_eq_parse_each (k records -> k results, each = parsing the record alone), "
-              "parseFlat_layout (any 10-line header), parse_layout_locations_total (no location of an in-domain record makes "
-              "parseLocation panic, from C02's parseLocation_total). The model is tied to /repo by correspondence on the same (record, layout) "
+              "parseFlat_layout (any 10-line header), parse_layout_locations_total / parseMulti_layout_locations_total / "
+              "parseFlat_layout_locations_total (no location of an in-domain record makes parseLocation panic, from C02's "
+              "parseLocation_total), parseMulti_layout_last_wins / parseFlat_layout_last_wins (the file theorems over wfLoose). "
+              "One layout choice is outside the theorems and is the second known finding: SOURCE written without ORGANISM. The model is tied to /repo by correspondence on the same (record, layout) "
               "pairs: Parse, ParseMulti, ParseFlat and Read, ReadMulti, ReadFlat, ReadFlatGz, all fields the property lists.")
 LEVEL_NOTE = ("Trusted: Lean kernel; Spec/GbLayout.lean (the writer and wf, typed from the NCBI flat-file description); the scanners that "
               "stand for the four regular expressions; ASCII; C02's model of parseLocation (proved not to panic on domain location texts: "
